@@ -11,7 +11,7 @@ from harness.gallina import gbool, glist, gn, gopt, gstr, gz
 
 ID = "C15"
 COQ_TARGETS = ["Reach.vo", "ReachProofs.vo", "ReachSpec.vo", "RefutedC15.vo", "ReachList.vo", "ReachListProofs.vo",
-               "CorrC15.vo", "Props/C15.vo"]
+               "TS.vo", "TSProofs.vo", "Merge.vo", "MergeProofs.vo", "ReachTypes.vo", "CorrC15.vo", "Props/C15.vo"]
 PROPS_FILE = "Props/C15.v"
 CORR_IMPORTS = "Base Heap Schema Reach CorrC15"
 ENTRY = "cassis.cas.Cas._find_all_fs (and to_xmi / to_json / load_cas_from_xmi / load_cas_from_json / typecheck / select / cas_to_comparable_text for the deadline)"
@@ -27,7 +27,15 @@ RULE = (
     "all objects and the generator's next id afterwards, or the error kind; and on a CAS built the same way to_xmi, "
     "to_json, typecheck, load_cas_from_xmi, load_cas_from_json each under a CPU deadline of 2 s (oracle: every one comes "
     "back; to_xmi may refuse with ValueError only a cyclic list it would have to write inline or a duplicate id; in Coq: "
-    "returned / refused = ReachList.to_xmi_lists). Deadline obligation: 19 shapes x sizes "
+    "returned / refused = ReachList.to_xmi_lists). Third wave: collections inside collections (FSArrays reachable only through "
+    "FSArrays as chain / diamond / cycle / self containment, entered through a reference, an inline feature or an index; arrays of "
+    "list nodes whose heads are arrays; random graphs whose collection elements are collections, with cycles through arrays only) in "
+    "the same correspondence; and type trees built through every route (create_type, merge_typesystems of coarser / finer / equal "
+    "versions all at once or folded, XML round trip then merged again, load_cas_from_json with an embedded type system), observed "
+    "after every stage on the same objects: types handed out by the walk over the subtypes of every type (oracle: none twice, never "
+    "more than there are types) and select / select_covered under the CPU deadline (oracle only, no Gallina case). "
+    "Deadline obligation: 22 shapes (third wave: nested_arrays, nested_collections, merged_types = merged type tree of depth 10/20/40 "
+    "with the step count of the subtype walk) x sizes "
     "n,2n,4n (quick 250/500/1000, thorough 1000/2000/4000; diamond depth 50/100/200; type-reference ladder depth 15/30/60; "
     "lists, also of primitive values, additionally 5000/8000) x 8 operations (to_json with type systems FULL and MINIMAL) in subprocesses, CPU cap and growth-ratio cap 12 per doubling. A case is non-trivial when its graph has a "
     "cycle, a repeated/visited/null collection element, a shared collection, or explicit seeds."
@@ -37,6 +45,8 @@ TRUSTED = [
     "hand-written model coq/Reach.v of Cas._find_all_fs (enqueue-once by identity, id assignment at pop, duplicate-id "
     "error, array/feature scanning, inline FSArray/FSList member scanning with a node set) and coq/ReachList.v of "
     "CasXmiSerializer._collect_list_elements (node set, ValueError on a repeated node) with the branches that call it",
+    "models coq/TS.v (Type.descendants over the _children tables, invariant WFh) and coq/Merge.v (merge_typesystems) of C10 / C13: "
+    "C15_subtype_walk_linear / C15_merged_subtype_walk_linear are corollaries of their theorems; their correspondence is checked by C10 / C13",
     "the schema (ancestors, effective features) is data here; that a TypeSystem answers like it is C10/C11",
     "harness/scen.py builders and harness/props/C15.py: build real objects, observe by identity, render cases",
     "wall-clock / CPU time is measured, not proved: the theorems bound loop iterations of the model (pops <= live objects, "
@@ -347,7 +357,70 @@ def shapes(n):
     return out
 
 
-def random_graph(rng, n):
+def shapes_nested(n):
+    """Collections whose elements are collections again (an FSArray holds uima.cas.TOP, so another FSArray or a list node is
+    as good an element as any other structure): every shape a reference graph can have - chain, diamond, cycle, self
+    containment - built from FSArrays that are reachable ONLY through FSArrays, entered through a TOP-ranged reference,
+    an inline FSArray feature of a subtype / of an annotation, or an index; and the same through both kinds of collection."""
+    out = []
+
+    def holders(b, first, how):
+        if how == "top":                       # a reference: the outermost array is a feature value
+            b.add(b.node(top=first))
+        elif how == "farr":                    # FSArray feature without multipleReferencesAllowed (elements of anything)
+            b.add(b.node(type_="g.Sub", farr=first))
+        elif how == "ann":                     # the same on an annotation, and a second holder entering one level deeper
+            b.add(b.ann(b=1, e=3, arr=first))
+        else:                                  # the outermost array is indexed itself
+            b.add(first)
+
+    for how in ("top", "farr", "ann", "indexed"):
+        # chain / diamond: every array holds the next one twice and a null; the innermost holds a node twice
+        b = B()
+        leaf = b.node()
+        arrays = [b.arr([]) for _ in range(n + 1)]
+        for i in range(n):
+            b.objs[arrays[i] - 1]["slots"]["elements"] = {"list": [ref(arrays[i + 1]), None, ref(arrays[i + 1])]}
+        b.objs[arrays[n] - 1]["slots"]["elements"] = {"list": [ref(leaf), ref(leaf)]}
+        holders(b, arrays[0], how)
+        out.append(("nested_arrays", b, None))
+        # cycles among arrays that only arrays lead to: the innermost array leads back to the second, the first and itself
+        b = B()
+        arrays = [b.arr([]) for _ in range(n + 2)]
+        for i in range(n + 1):
+            b.objs[arrays[i] - 1]["slots"]["elements"] = {"list": [ref(arrays[i + 1]), None, ref(arrays[i + 1])][: 1 + 2 * (i % 2 == 0)]}
+        b.objs[arrays[n + 1] - 1]["slots"]["elements"] = {"list": [ref(arrays[1]), ref(arrays[0]), None, ref(arrays[n + 1])]}
+        holders(b, arrays[0], how)
+        out.append(("nested_array_cycle", b, None))
+    # two arrays containing each other, nothing else; one of them is a seed
+    b = B()
+    x, y = b.arr([]), b.arr([])
+    b.objs[x - 1]["slots"]["elements"] = {"list": [ref(y), ref(y)]}
+    b.objs[y - 1]["slots"]["elements"] = {"list": [ref(x), ref(y), None]}
+    b.add(b.node(top=b.arr([x])))
+    out.append(("nested_array_cycle", b, None))
+    out.append(("nested_array_cycle", b, [x]))
+    # both kinds of collection inside each other: an array of list nodes whose heads are arrays of list nodes ..., the
+    # innermost array leading back to the outermost array and to the first list; lists (inline and shared) of arrays
+    b = B()
+    leaf = b.node()
+    inner = b.arr([leaf, None, leaf])
+    first_inner = inner
+    firsts = []
+    for i in range(n):
+        first, nodes = b.lst([inner, None, inner])
+        firsts.append(first)
+        inner = b.arr([first, nodes[-1], inner, first])
+    b.objs[first_inner - 1]["slots"]["elements"]["list"] += [ref(inner), ref(firsts[0])]
+    lfirst, _ = b.lst([inner, first_inner, inner])
+    sfirst, _ = b.lst([first_inner, inner])
+    b.add(b.node(top=inner, lst=lfirst, slst=sfirst))
+    b.add(b.node(type_="g.Sub", farr=b.arr([inner, inner, firsts[-1]])))
+    out.append(("nested_collections", b, None))
+    return out
+
+
+def random_graph(rng, n, nested=False):
     b = B(nviews=rng.choice([1, 1, 2]))
     nodes = []
     for i in range(n):
@@ -363,6 +436,8 @@ def random_graph(rng, n):
     colls = {"arr": [], "lst": [], "Integer": [], "Float": [], "String": []}
 
     def pick():
+        if nested and rng.random() < 0.35 and (colls["arr"] or colls["lst"]):
+            return rng.choice(colls["arr"] + colls["lst"])          # a collection as an element of a collection
         return None if rng.random() < 0.15 else rng.choice(nodes)
 
     def some(k):
@@ -415,6 +490,15 @@ def random_graph(rng, n):
             else:
                 reuse = colls["lst"] and rng.random() < (0.5 if fn == "slst" else 0.15)
                 o["slots"][fn] = ref(rng.choice(colls["lst"]) if reuse else new_lst())
+    if nested:
+        # arrays are made one after the other, so far an array can only hold older collections: let some also hold
+        # younger arrays, each other and themselves (cycles that lead through arrays only)
+        for a in colls["arr"]:
+            if rng.random() < 0.6:
+                more = [rng.choice(colls["arr"]) for _ in range(rng.choice([1, 1, 2, 3]))]
+                els = b.objs[a - 1]["slots"]["elements"]["list"]
+                for m in more + ([more[0]] if rng.random() < 0.5 else []):
+                    els.insert(rng.randint(0, len(els)), ref(m))
     for lab in nodes:
         if rng.random() < 0.4:
             o = b.objs[lab - 1]
@@ -433,7 +517,7 @@ def random_graph(rng, n):
     if rng.random() < 0.25:
         pool = [o["o"] for o in b.objs]
         seeds = [rng.choice(pool) for _ in range(rng.randint(0, 4))]
-    sc = sc_of(b, "random", rng.random() < 0.5, seeds)
+    sc = sc_of(b, "random_nested" if nested else "random", rng.random() < 0.5, seeds)
     set_ids(sc, rng.choice(["none", "all", "partial", "partial"]), rng)
     r = rng.random()
     objs = sc["cspec"]["objs"]
@@ -470,6 +554,147 @@ def generate(rng, tier):
         if rng.random() < 0.15:
             seeds = [rng.choice(cspec["objs"])["o"] for _ in range(rng.randint(1, 3))]
         yield {"kind": "graph", "shape": "gen_cspec", "tspec": tspec, "cspec": cspec, "inl": rng.random() < 0.5, "seeds": seeds}
+    # collections inside collections (third wave).  Generated last, so that every case above is what it was before.
+    if tier != "search":
+        for n in {"quick": [1, 2, 5], "thorough": [1, 2, 3, 5, 9, 30]}[tier]:
+            for name, b, seeds in shapes_nested(n):
+                for inl in (False, True):
+                    for mode in ("none", "partial") if n != 2 else ("none", "all", "partial"):
+                        sc = json.loads(json.dumps(sc_of(b, name, inl, seeds)))
+                        yield set_ids(sc, mode, rng)
+    for r in range({"quick": 120, "thorough": 1200, "search": 700}[tier]):
+        yield random_graph(rng, rng.choice([1, 2, 3, 4, 6, 8, 12]), nested=True)
+    # type trees built through every route (create_type, XML, merge of versions, JSON with an embedded type system)
+    yield from tree_scenarios(rng, tier)
+
+
+# ------------------------------------------------------------------------------------------------ type trees (small scope)
+# "type trees dozens of levels deep": a type tree comes into being through create_type, through load_typesystem and
+# through merge_typesystems (also inside load_cas_from_json with an embedded type system), which re-parents a type when a
+# later version names a more specific supertype.  Whatever the route, the queries that walk the subtypes of a type
+# (select, select_covered, create_feature all iterate over Type.descendants) must do work bounded by the number of
+# types.  Work is counted in steps here (types handed out by the walk), the deadline oracle measures seconds at depth 10-40.
+
+TREE_ROOT = "uima.tcas.Annotation"
+WALK_CUT = 40                                            # the walk is cut after WALK_CUT * (number of types) + 200 steps
+
+
+def _contract(rng, parent, keep_prob):
+    """A version of the tree `parent` (name -> supertype name, in creation order) that leaves out some types: the
+    children of a type that is left out hang under its nearest kept ancestor (a coarser version of the same tree)."""
+    kept = [t for t in parent if rng.random() < keep_prob]
+
+    def up(t):
+        p = parent[t]
+        while p in parent and p not in kept:
+            p = parent[p]
+        return p
+    return [[t, up(t)] for t in kept]
+
+
+def tree_scenarios(rng, tier):
+    def sc_of_versions(shape, versions, stages):
+        return {"kind": "tree", "shape": shape, "versions": versions, "stages": stages}
+    depths = {"quick": [1, 2, 3, 5, 8], "thorough": [1, 2, 3, 4, 5, 8, 12], "search": [2, 4]}[tier]
+    for d in depths:
+        coarse = [["t.T0", TREE_ROOT]] + [["t.T%d" % (i + 1), "t.T%d" % i] for i in range(d)]
+        fine = [["t.T0", TREE_ROOT]]
+        for i in range(d):
+            fine += [["t.X%d" % i, "t.T%d" % i], ["t.T%d" % (i + 1), "t.X%d" % i]]
+        every_other = [["t.T0", TREE_ROOT]] + [["t.T%d" % i, "t.T%d" % (i - 2 if i % 2 == 0 else i - 1)] for i in range(1, d + 1)
+                                               if i % 2 == 0 or i == d]
+        for name, versions in (("refined", [coarse, fine]), ("coarsened", [fine, coarse]), ("refined_twice", [every_other, coarse, fine]),
+                               ("same", [fine, fine]), ("single", [fine])):
+            for stages in (["merge_all"], ["merge_fold", "xml", "merge_all"], ["json_embedded"]):
+                yield sc_of_versions("tree_" + name, versions, stages)
+    for r in range({"quick": 60, "thorough": 500, "search": 300}[tier]):
+        k = rng.choice([2, 3, 4, 6, 9, 14])
+        parent = {}
+        for i in range(k):
+            parent["t.R%d" % i] = TREE_ROOT if i == 0 or rng.random() < 0.1 else "t.R%d" % rng.randrange(max(0, i - 3), i)
+        versions = [_contract(rng, parent, rng.choice([0.5, 0.7, 0.9, 1.0])) for _ in range(rng.choice([2, 2, 3, 4]))]
+        versions = [v for v in versions if v] or [[[t, p] for t, p in parent.items()]]
+        yield sc_of_versions("tree_random", versions, rng.choice([["merge_all"], ["merge_fold"], ["merge_fold", "xml", "merge_all"],
+                                                                  ["merge_all", "json_embedded"], ["json_embedded"]]))
+
+
+def _walk_counts(ts, names):
+    """for every named type: [types handed out by the walk over its subtypes (cut), distinct ones among them]"""
+    from itertools import islice
+    n_types = sum(1 for _ in ts.get_types())
+    cut = WALK_CUT * n_types + 200
+    out = {}
+    for nm in names:
+        if not ts.contains_type(nm):
+            continue
+        walked = [t.name for t in islice(ts.get_type(nm).descendants, cut)]
+        out[nm] = [len(walked), len(set(walked))]
+    return n_types, out
+
+
+def _run_tree(cassis, sc):
+    """Builds every version with create_type, then goes through the stages on the SAME objects; after every stage that
+    yields a type system: the walk counts of every type, and select / select_covered on a CAS over it under a CPU deadline."""
+    def build(version):
+        ts = cassis.TypeSystem()
+        for name, sup in version:
+            ts.create_type(name, sup)
+        return ts
+    names = sorted({t for v in sc["versions"] for t, _p in v})
+    tss = [build(v) for v in sc["versions"]]
+    obs = {"stages": []}
+    current = None
+
+    def look(stage, ts):
+        n_types, walks = _walk_counts(ts, names)
+        cas = cassis.Cas(typesystem=ts)
+        cas.sofa_string = "x" * 20
+        for i, nm in enumerate(n for n in names if ts.contains_type(n)):
+            cas.add(ts.get_type(nm)(begin=i % 7, end=i % 7 + 3))
+
+        def query():
+            k = 0
+            for nm in names:
+                if ts.contains_type(nm):
+                    found = list(cas.select(nm))
+                    k += len(found) + sum(len(list(cas.select_covered(nm, a))) for a in found[:2])
+            return k
+        kind, _r = _bounded(OP_CPU_CAP_S, query)
+        obs["stages"].append({"stage": stage, "types": n_types, "walks": walks, "select": kind})
+
+    for stage in sc["stages"]:
+        try:
+            if stage == "merge_all":
+                current = cassis.merge_typesystems(*tss)
+            elif stage == "merge_fold":
+                current = tss[0]
+                for t in tss[1:]:
+                    current = cassis.merge_typesystems(current, t)
+            elif stage == "xml":                       # the merged tree written and read back, then merged with the versions again
+                current = cassis.load_typesystem((current or tss[0]).to_xml())
+                tss = [current] + tss
+            elif stage == "json_embedded":             # a document carrying the last version is loaded into a CAS typed by the first
+                doc = cassis.Cas(typesystem=tss[-1]).to_json()
+                current = cassis.load_cas_from_json(doc, typesystem=current or tss[0]).typesystem
+        except ValueError:                             # merge refused: which merges are legal is C13, not this property
+            obs["stages"].append({"stage": stage, "refused": True})
+            break
+        look(stage, current)
+    return obs
+
+
+def tree_oracle(sc, obs):
+    for st in obs["stages"]:
+        if st.get("refused"):
+            continue
+        if st["select"] in NOT_BACK:
+            return (f"select / select_covered did not come back ({st['select']}; CPU cap {OP_CPU_CAP_S} s) on a type system of "
+                    f"{st['types']} types after stage {st['stage']}")
+        for nm, (walked, distinct) in sorted(st["walks"].items()):
+            if walked > distinct or walked > st["types"]:
+                return (f"walking the subtypes of {nm} after stage {st['stage']} hands out {walked} types, only {distinct} distinct "
+                        f"(the type system has {st['types']}): the work of select grows with the number of paths, not of types")
+    return None
 
 
 class _Lazy(dict):
@@ -577,6 +802,8 @@ def run_impl(cassis, sc):
         signal.setitimer(signal.ITIMER_REAL, 600)          # replay of a deadline counterexample: subprocesses have their own caps
         return _run_timing_case(sc)
     _CASSIS["m"] = cassis
+    if sc.get("kind") == "tree":
+        return _run_tree(cassis, sc)
     if _STATE["running"]:                                  # the previous call never came back: it was cut by the engine's alarm
         _STATE["hung"] += 1
     if _STATE["hung"] >= 3:                                # the tree under test hangs: do not spend 10 s on every further case
@@ -732,6 +959,8 @@ def ops_oracle(cassis, sc, obs):
 def oracle(cassis, sc, obs):
     if sc.get("kind") == "timing":
         return obs.get("failure")
+    if sc.get("kind") == "tree":
+        return tree_oracle(sc, obs)
     return traversal_oracle(cassis, sc, obs) or ops_oracle(cassis, sc, obs)
 
 
@@ -814,7 +1043,7 @@ def schema_const_usable(cassis, tspec, obj_types, coq_file, marker):
 
 
 def render(sc, obs):
-    if sc.get("kind") == "timing":
+    if sc.get("kind") in ("timing", "tree"):          # no Gallina case: judged by the oracle alone
         return None
     if any(l < 0 for m in obs["members"] for l in m) or any(l < 0 for _i, l in obs["found"]):
         return None
@@ -842,6 +1071,12 @@ def _render_with(schema_term, sc, obs):
 def nontrivial(sc):
     if sc.get("kind") == "timing":
         return True
+    if sc.get("kind") == "tree":                      # some type is declared with two different supertypes
+        sup = {}
+        for v in sc["versions"]:
+            for t, p in v:
+                sup.setdefault(t, set()).add(p)
+        return any(len(x) > 1 for x in sup.values())
     if sc["seeds"] is not None:
         return True
     objs = sc["cspec"]["objs"]
@@ -863,11 +1098,29 @@ SHRINK_BUDGET = 150
 def shrink_candidates(sc):
     if sc.get("kind") == "timing":
         return
+    if sc.get("kind") == "tree":
+        yield from _shrink_tree(sc)
+        return
     for c in _shrink_candidates(sc):
         _STATE["shrinks"] += 1
         if _STATE["shrinks"] > SHRINK_BUDGET:          # global budget: a hanging tree makes every candidate cost a timeout
             return
         yield c
+
+
+def _shrink_tree(sc):
+    """drop a stage, a version, or a type (its children go to its supertype)"""
+    for i in range(len(sc["stages"])):
+        if len(sc["stages"]) > 1:
+            yield dict(sc, stages=sc["stages"][:i] + sc["stages"][i + 1:])
+    for i in range(len(sc["versions"])):
+        if len(sc["versions"]) > 1:
+            yield dict(sc, versions=sc["versions"][:i] + sc["versions"][i + 1:])
+    for i, v in enumerate(sc["versions"]):
+        for j, (t, p) in enumerate(v):
+            if len(v) > 1:
+                w = [[a, (p if b == t else b)] for k, (a, b) in enumerate(v) if k != j]
+                yield dict(sc, versions=sc["versions"][:i] + [w] + sc["versions"][i + 1:])
 
 
 def _shrink_candidates(sc):
@@ -897,7 +1150,13 @@ def distribution(scenarios, observations):
     by_shape = {}
     for s in g:
         by_shape[s["shape"]] = by_shape.get(s["shape"], 0) + 1
+    for s in scenarios:
+        if s.get("kind") == "tree":
+            by_shape[s["shape"]] = by_shape.get(s["shape"], 0) + 1
+    trees = [o for s, o in zip(scenarios, observations) if s.get("kind") == "tree" and o]
     return {"cases": len(scenarios), "by_shape": by_shape,
+            "type_tree_cases": len(trees), "type_tree_stages_observed": sum(len(o.get("stages", [])) for o in trees),
+            "type_tree_merges_refused": sum(1 for o in trees for st in o.get("stages", []) if st.get("refused")),
             "inl_true": sum(1 for s in g if s["inl"]), "explicit_seeds": sum(1 for s in g if s["seeds"] is not None),
             "max_objects": max([len(s["cspec"]["objs"]) for s in g] or [0]),
             "errors_observed": sum(1 for o in observations if o and o.get("err")),
@@ -915,7 +1174,7 @@ OPS = ["typecheck", "to_xmi", "to_json", "to_json_minimal", "load_cas_from_xmi",
 SHAPES = ["chain", "cycle", "selfref", "diamond", "inline_array", "shared_array", "inline_list", "shared_list",
           "cyclic_inline_list", "cyclic_shared_list", "many_small_collections", "top_fan", "deep_types", "type_ref_ladder",
           "prim_lists", "cyclic_inline_int_list", "cyclic_inline_float_list", "cyclic_inline_string_list",
-          "cyclic_shared_prim_list"]
+          "cyclic_shared_prim_list", "nested_arrays", "nested_collections", "merged_types"]
 LIST_SHAPES = ("inline_list", "shared_list", "cyclic_inline_list", "cyclic_shared_list", "prim_lists",
                "cyclic_inline_int_list", "cyclic_inline_float_list", "cyclic_inline_string_list", "cyclic_shared_prim_list")
 # the only operation that may end with an exception: XMI refuses to write a cyclic list inline (ValueError)
@@ -930,6 +1189,8 @@ def timing_sizes(shape, tier):
         return [50, 100, 200]
     if shape == "type_ref_ladder":            # depth of a type tree whose levels refer to the next level through several features
         return [15, 30, 60]
+    if shape == "merged_types":               # depth of each of the two versions of the type tree that are merged
+        return [10, 20, 40]
     base = [250, 500, 1000] if tier == "quick" else [1000, 2000, 4000]
     if shape in LIST_SHAPES:
         return base + ([5000] if tier == "quick" else [8000])
@@ -960,6 +1221,35 @@ def _measure(shape, n, wall):
         return None, f"unreadable output after {time.time() - t0:.1f} s: {p.stdout[-200:]}"
 
 
+def _judge_row(shape, n, r, cpu_cap, prev):
+    """What is wrong with the measurements r of one size (prev = (previous size, its measurements) or None), or None."""
+    for op, t in r["times"].items():
+        if t > cpu_cap:
+            return f"{shape} n={n}: {op} took {t:.2f} s CPU (cap {cpu_cap:.0f} s)"
+    for op, kind in r.get("errors", {}).items():
+        if ALLOWED_ERRORS.get((shape, op)) != kind:
+            return f"{shape} n={n}: {op} raised {kind}"
+    missing = [op for op in OPS if op not in r["times"] and not (op == "load_cas_from_xmi" and "to_xmi" in r.get("errors", {}))]
+    if missing:
+        return f"{shape} n={n}: operations not measured: {missing}"
+    # work counted in steps: the walk over the subtypes of the root of the deep type tree (what select, select_covered and
+    # create_feature iterate over) hands out every type at most once, so never more types than the type system has
+    w = r.get("work") or {}
+    if w and w["subtypes_walked"] > w["types"]:
+        return (f"{shape} n={n}: walking the subtypes of d.T0 hands out {w['subtypes_walked']}{'+' if w['subtypes_walked'] > 50 * w['types'] else ''} "
+                f"types ({w['subtypes_distinct']} distinct), the whole type system has {w['types']}")
+    if prev:
+        pn, pr = prev
+        for op, t in r["times"].items():
+            pt = pr["times"].get(op)
+            if pt is None or pt < RATIO_FLOOR_S:
+                continue
+            cap = RATIO_CAP * max(1.0, max(1.0, (n / pn)) / 2.0)
+            if t / pt > cap:
+                return f"{shape}: {op} grew {t / pt:.1f}x from n={pn} ({pt:.3f} s) to n={n} ({t:.3f} s), cap {cap:.0f}x"
+    return None
+
+
 def judge_shape(shape, tier, measure=_measure):
     """Runs the sizes of one shape in increasing order; returns (ok, detail, failing scenario or None)."""
     sizes = timing_sizes(shape, tier)
@@ -970,26 +1260,9 @@ def judge_shape(shape, tier, measure=_measure):
         sc = {"kind": "timing", "shape": shape, "n": n, "tier": tier, "prev_n": rows[-1][0] if rows else None}
         if fail:
             return False, f"{shape} n={n}: {fail}", sc
-        for op, t in r["times"].items():
-            if t > cpu_cap:
-                return False, f"{shape} n={n}: {op} took {t:.2f} s CPU (cap {cpu_cap:.0f} s)", sc
-        for op, kind in r.get("errors", {}).items():
-            if ALLOWED_ERRORS.get((shape, op)) != kind:
-                return False, f"{shape} n={n}: {op} raised {kind}", sc
-        missing = [op for op in OPS if op not in r["times"] and not (op == "load_cas_from_xmi" and "to_xmi" in r.get("errors", {}))]
-        if missing:
-            return False, f"{shape} n={n}: operations not measured: {missing}", sc
-        if rows:
-            pn, pr = rows[-1]
-            for op, t in r["times"].items():
-                pt = pr["times"].get(op)
-                if pt is None or pt < RATIO_FLOOR_S:
-                    continue
-                doublings = max(1.0, (n / pn)) / 2.0
-                cap = RATIO_CAP * max(1.0, doublings)
-                if t / pt > cap:
-                    return False, (f"{shape}: {op} grew {t / pt:.1f}x from n={pn} ({pt:.3f} s) to n={n} ({t:.3f} s), "
-                                   f"cap {cap:.0f}x"), sc
+        fail = _judge_row(shape, n, r, cpu_cap, rows[-1] if rows else None)
+        if fail:
+            return False, fail, sc
         rows.append((n, r))
     worst = max((t for _n, r in rows for t in r["times"].values()), default=0.0)
     return True, f"{shape}: sizes {sizes} worst operation {worst:.3f} s CPU", None
@@ -1006,20 +1279,9 @@ def _run_timing_case(sc):
         if fail:
             failure = f"{sc['shape']} n={n}: {fail}"
             break
-        over = [(op, t) for op, t in r["times"].items() if t > cpu_cap]
-        if over:
-            failure = f"{sc['shape']} n={n}: {over[0][0]} took {over[0][1]:.2f} s CPU (cap {cpu_cap:.0f} s)"
+        failure = _judge_row(sc["shape"], n, r, cpu_cap, rows[-1] if rows else None)
+        if failure:
             break
-        bad = [(op, k) for op, k in r.get("errors", {}).items() if ALLOWED_ERRORS.get((sc["shape"], op)) != k]
-        if bad:
-            failure = f"{sc['shape']} n={n}: {bad[0][0]} raised {bad[0][1]}"
-            break
-        if rows:
-            pn, pr = rows[-1]
-            for op, t in r["times"].items():
-                pt = pr["times"].get(op)
-                if pt is not None and pt >= RATIO_FLOOR_S and t / pt > RATIO_CAP * max(1.0, n / pn / 2.0):
-                    failure = f"{sc['shape']}: {op} grew {t / pt:.1f}x from n={pn} to n={n}"
         rows.append((n, r))
     return {"rows": [[n, r] for n, r in rows], "failure": failure}
 
@@ -1045,7 +1307,11 @@ MANIFEST = {
                   "are refuted (2^(n+1)-1 pops on diamond chains, divergent list walks). The models are tied to /repo on every "
                   "run by evaluating them inside Coq on the graphs the implementation traversed and wrote, every operation is run "
                   "under a CPU deadline on each of these graphs, and a deadline oracle measures "
-                  "to_xmi/to_json/load_*/typecheck/select/cas_to_comparable_text on 19 shapes at sizes n,2n,4n.",
+                  "to_xmi/to_json/load_*/typecheck/select/cas_to_comparable_text on 22 shapes at sizes n,2n,4n. The walk over "
+                  "the subtypes of a type (Type.descendants, what select iterates over) is proved to hand out every type at most "
+                  "once on every type system satisfying the hierarchy invariant, in particular on every result of the modelled "
+                  "merge_typesystems (a stale _children entry per level makes it 3*2^k-2: refuted); on type trees built through "
+                  "every public route the implementation's walk is counted in steps on every run.",
     "level_note": "PARTIAL: the theorems bound loop iterations of the model (worklist pops, list-walk steps); hierarchy queries are "
                   "data lookups in Schema (ancestor lists), readers/writers are structural folds over the document / the id-sorted "
                   "list (total by Coq's guard condition). Wall-clock / CPU time of the implementation is measured (absolute cap and "
